@@ -127,14 +127,17 @@ PROPERTIES["C07"] = {
 }
 
 PROPERTIES["C02"] = {
-    "mirsym": [PROPERTIES["C07"]["mirsym"][2]],
+    "mirsym": [PROPERTIES["C07"]["mirsym"][2],
+               M("c02_sender_frame_limit", "d_c02", "sender_frame_limit",
+                 "Socket::send_multipart (public API body) with 0,1,2,3,255,256,300 frames; the pattern-specific inner socket is stubbed right after the Vec -> FrameBatch conversion",
+                 budget={"quick": 120, "thorough": 200}, required_covers=["c02.sender.accepted", "c02.sender.refused"])],
     "assumptions": MIRSYM_TRUST,
     "manifest": {
         "engine": "mirsym",
         "technique": "symbolic execution of ZmtpEngine::process_data (MIR, z3): one inductive step from a state with L pending frames",
-        "text": "Receiver side of a connection: whatever bytes arrive while L in {0..255} MORE-frames are pending, the engine only delivers whole messages (MORE on all but the last frame, no COMMAND frame inside), and a message with more frames than FrameBatch supports closes the connection instead of panicking.",
+        "text": "Sender side: Socket::send_multipart refuses a message of more than 255 frames with an error before anything is queued and never panics. Receiver side of a connection: whatever bytes arrive while L in {0..255} MORE-frames are pending, the engine only delivers whole messages (MORE on all but the last frame, no COMMAND frame inside), and a message with more frames than FrameBatch supports closes the connection instead of panicking.",
         "design_ref": "DESIGN.md §5 C02",
-        "note": "NOT claimed: frame-by-frame recv()/recv_multipart() mixing on the ingress engines, sender-side refusal of >255 frames, peer attach/detach interleavings (socket level).",
+        "note": "NOT claimed: frame-by-frame recv()/recv_multipart() mixing on the ingress engines, MORE-flag normalisation in the per-pattern send_multipart bodies, peer attach/detach interleavings (socket level).",
     },
     "outside": "socket-level ingress (recv/recv_multipart mixing), sender-side limits, attach/detach interleavings",
 }
